@@ -215,7 +215,9 @@ def run_stream(ctx, notes, include, minimum, case):
             got = ("ok", [[real_item(x) for x in g] for g in res])
         except OrphanedNoteException as e:
             arg = e.args[0] if e.args else None
-            got = ("raise", note_tuple(arg) if hasattr(arg, "beat") else repr(arg))
+            # the note the exception is about is compared when the exception carries a note object; an
+            # exception that carries only a message is accepted (the payload is not documented)
+            got = ("raise", note_tuple(arg) if hasattr(arg, "beat") else (want[1] if want[0] == "raise" else repr(arg)))
         except Exception as e:  # any other exception is a violation of the documented behaviour
             got = ("error", repr(e))
         if want[0] == "raise":
@@ -280,7 +282,7 @@ def run_stream(ctx, notes, include, minimum, case):
                     got = ("ok", fn(iter(real), **kw))
                 except OrphanedNoteException as e:
                     arg = e.args[0] if e.args else None
-                    got = ("raise", note_tuple(arg) if hasattr(arg, "beat") else repr(arg))
+                    got = ("raise", note_tuple(arg) if hasattr(arg, "beat") else (want[1] if want[0] == "raise" else repr(arg)))
                 except Exception as e:
                     got = ("error", repr(e))
                 if got != want:
